@@ -10,6 +10,8 @@ Domain   generated worlds with 0-4 prior generations, flat and nested (so that c
          what kill -9 would leave if completed operations are durable and a file holds a prefix of what was written.
          A second variant delivers KeyboardInterrupt at the same points and lets the tool's own clean-up code run
          (Ctrl-C / SIGTERM), so that a well-meant rollback handler is exercised as well.
+         Later additions: at every other crash point the follow-up starts with a create that meets altered files; info -v
+         among the follow-ups; enumerated final runs that write reference-only or empty-folder generations.
 Oracle   after each crash: (1) every previously committed manifest byte-identical; (2) every chain file parses with
          the independent reader and still lists every previously committed generation with its digest; (3) info,
          verify and create run next end with a documented exit code (0/10/11/21/30) - never an uncaught exception,
